@@ -113,8 +113,11 @@ func lexClasses(sandbox bool, fix string) lex {
 		"none", "off", "on", "not", "http://127.0.0.1:1", "unix:/x", "srv://", "{x", "x}", "{path}", "{>X-H}",
 		p("ok.txt"), p("garbage.bin"), p("d"), p("missing"), "ok.txt", "garbage.bin", "d", "missing",
 		p("c.crt"), p("c.key"), p("certs"), "ht.txt", "tpl.html", "404", "301", "127.0.0.1:1", "a b",
+		// quoted tokens that are non-empty but contain no shell word / look like a
+		// comment / are an unbalanced quote once a directive splits them again
+		" ", "#c", "'", "\t ",
 	}
-	l.core = []string{"", "/p", "p", "*", "-1", "0", "1", "10s", "1KB", p("ok.txt"), "{path}", "x}", "http://127.0.0.1:1", "404"}
+	l.core = []string{"", " ", "/p", "p", "*", "-1", "0", "1", "10s", "1KB", p("ok.txt"), "{path}", "x}", "http://127.0.0.1:1", "404", "#c"}
 	if sandbox {
 		l.all = append([]string{"/"}, l.all...)
 		l.core = append([]string{"/"}, l.core...)
